@@ -34,6 +34,16 @@ type Loader struct {
 	// generation counts invalidations: a file read before an invalidation is not
 	// cached after it
 	generation uint64
+	// openContent, if set, yields the editor text of a file that is open: an
+	// included file that is open is loaded from there, not from disk
+	openContent func(path string) (string, bool)
+}
+
+// SetOpenContent tells the loader where to find the editor text of open files.
+func (l *Loader) SetOpenContent(source func(path string) (string, bool)) {
+	l.mu.Lock()
+	defer l.mu.Unlock()
+	l.openContent = source
 }
 
 func NewLoader() *Loader {
@@ -272,7 +282,23 @@ func (l *Loader) loadSingleInclude(
 	cached, ok := l.cache[includePath]
 	cachedErrs := l.cachedParseErrs[includePath]
 	generation := l.generation
+	openContent := l.openContent
 	l.mu.RUnlock()
+	if openContent != nil {
+		if text, open := openContent(includePath); open {
+			// unsaved text, include lines among it, is the file's content; it is
+			// parsed anew each time and never cached
+			subResult, subErrors := l.loadWithContent(includePath, text, visited)
+			errors = append(errors, subErrors...)
+			if subResult != nil && subResult.Primary != nil {
+				result.Files[includePath] = subResult.Primary
+				result.FileOrder = append(result.FileOrder, includePath)
+				maps.Copy(result.Files, subResult.Files)
+				result.FileOrder = append(result.FileOrder, subResult.FileOrder...)
+			}
+			return errors
+		}
+	}
 	if ok {
 		errors = append(errors, cachedErrs...)
 		// the cache saves re-parsing the file; its own includes still have to be followed
